@@ -138,6 +138,14 @@ int read_uf2(const char *filename, Memory *memory)
       //printf("extension tags present\n");
     }
 
+    if (uf2_block.byte_count > sizeof(uf2_block.data))
+    {
+      printf("Error: UF2 block payload size %d is too big\n",
+        uf2_block.byte_count);
+      file.close_file();
+      return -1;
+    }
+
     for (uint32_t n = 0; n < uf2_block.byte_count; n++)
     {
       memory->write8(address++, uf2_block.data[n]);
